@@ -651,6 +651,8 @@ fn c18_cfg_from(src: Metric, dim: usize, targets: &[Metric], depth: usize, popul
             prefix.push(Action::Add { index: mid, id: *id, vec: v });
         }
         prefix.push(build(mid, None, None, None));
+        // the higher neighbour's metric was changed and it was not rebuilt: it holds nothing but item keys
+        prefix.push(Action::ChangeMetric { index: hi, to: Metric::Manhattan });
         prefix.push(Action::Commit);
     }
     let mut menu = Vec::new();
